@@ -17,6 +17,7 @@ From V Require Import Prelude.Base Prelude.PyInt Prelude.PyStr.
 From V Require Import Model.Types Model.Crypto Model.Sym Model.KeyId Model.Gkdi Model.Kek Model.SecDesc Model.Blob Model.CryptoWrap Model.Interval Model.Client.
 From V Require Import Spec.GkdiSpec Spec.KekSpec.
 From V Require Import Proofs.GkdiLib Proofs.BlobPkcs7 Proofs.BlobMain Proofs.C01Lib Proofs.C01 Proofs.C04.
+From V Require Import Prelude.PyAst Prelude.PyWorld gen.F_e2e Flow.World_e2e Proofs.Flow_e2e_dec.
 
 Theorem C04_no_other_plaintext : forall (c : Crypto) (h : hash) (rk : root_key) (rkid : bytes) (s : sid) (sid : pystr) (time_ns l0 l1 l2 : Z)
     (cache : ccache) (r1 r2 r3 data B : bytes) (cache1 : ccache) (b0 : blob),
@@ -79,6 +80,22 @@ Theorem C04_routing : forall c X B' p', fst (unprotect_offline c X B') = Ok p' -
     gcm_dec c cek' n' (b_enc_content b') = Ok p'.
 Proof. exact unprotect_inv. Qed.
 Print Assumptions C04_routing.
+
+(* ---- tie to the source: the whole bodies of _crypto.cek_decrypt, _crypto.content_decrypt and _client._decrypt_blob,
+   regenerated as syntax on every run (gen/F_e2e.v) and run in the world Flow/World_e2e.v, ARE the model functions the
+   theorems above are about ---- *)
+Theorem C04_flow_cek_decrypt : forall c fuel a p kek v,
+  run (W c) fuel k_flow_cek_decrypt [VO (OOid a); vopt_bytes p; VB kek; VB v] = (let* b := cek_decrypt c a p kek v in Ok (VB b)).
+Proof. exact flow_cek_decrypt. Qed.
+Print Assumptions C04_flow_cek_decrypt.
+Theorem C04_flow_content_decrypt : forall c fuel a p cek v,
+  run (W c) fuel k_flow_content_decrypt [VO (OOid a); vopt_bytes p; VB cek; VB v] = (let* b := content_decrypt c a p cek v in Ok (VB b)).
+Proof. exact flow_content_decrypt. Qed.
+Print Assumptions C04_flow_content_decrypt.
+Theorem C04_flow_decrypt_blob : forall c fuel b key,
+  run (W c) fuel k_flow_decrypt_blob [VO (OBlob b); VO (OEnv key)] = (let* x := decrypt_blob c b key in Ok (VB x)).
+Proof. exact flow_decrypt_blob. Qed.
+Print Assumptions C04_flow_decrypt_blob.
 
 (* ---- instances (guarded symbolic crypto, which is ideal: C01_symg_laws) ---- *)
 (* benign changes, after which the same plaintext is still returned: key-identifier version (1 -> 7); a flag bit other
